@@ -43,7 +43,7 @@ def main():
     sh('git -C /repo apply %s' % patch)
     t0 = time.time()
     try:
-        rc, out = sh('python3 tools/check.py %s --tier quick' % prop, cwd='/verif', timeout=3600)
+        rc, out = sh('VERIF_EVIDENCE_DIR=/tmp/wt/evidence_scratch python3 tools/check.py %s --tier quick' % prop, cwd='/verif', timeout=3600)
     finally:
         sh('git -C /repo checkout -- .')
     res['check_rc'] = rc
